@@ -171,15 +171,22 @@ def main():
 
     # ---- 3. code -> spec: real program runs validated by TraceTraceSummary ---------------
     t1 = time.time()
+    wide = wide_start(ck)          # generated while the program runs are under way
     trace_part(ck)
     phase["program_traces"] = round(time.time() - t1, 1)
+    # ---- 4. code -> spec: loci with 40-600 haplotypes in the programs' trace dtypes (TraceWideSummary) ----
+    t1 = time.time()
+    wide_part(ck, wide)
+    phase["wide_traces"] = round(time.time() - t1, 1)
     ck.note("phase_wall_s", phase)
 
     ck.exhaustive = True
     ck.assumptions = [
         "TLC and CommunityModules Json are correct",
-        "exhaustive within the listed instances (chains <= 3, steps <= 5, ploidy <= 6, alleles <= 4); larger traces are "
-        "covered by the recorded program runs (seeded)",
+        "exhaustive within the listed instances (chains <= 3, steps <= 5, ploidy <= 6, alleles <= 4; three and four chains "
+        "over menus of four / three stored genotypes with nested and foreign supports); larger traces are covered by the "
+        "recorded program runs and by the recorded wide traces (40-600 haplotypes, int8 / int16 / int32, seeded), every "
+        "summary of which is recomputed by TLC (TraceWideSummary)",
         "allele-trace incongruence: supports-reading and modal-genotype-reading are both admitted (documentation is silent)",
         "thresholds that coincide with a non-dyadic chain mass are not replayed (float boundary, DESIGN 2.4)",
     ]
@@ -204,6 +211,104 @@ def validate_events(ck, events, fname):
             e = events[p["reject"] - 1]
             ck.violation("trace-reject", {"line": p["reject"], "clause": p["clause"], "event": e},
                          key={"site": e["program"], "clause": p["clause"]})
+
+
+def wide_start(ck):
+    """allele traces in the dtypes the programs hold them in (int16 call-pedigree, int32 call, int8) over loci with
+    40-600 haplotypes: retained genotypes whose VCF indices exceed / collide modulo the range of that dtype"""
+    import threading
+
+    ntask, per = (8, 6) if ck.tier == "quick" else (40, 10)
+    tasks = [{"op": "wide", "seed": ck.seed * 1000 + 7000 + i, "index": i, "n": per,
+              "dtypes": ["int16", "int32", "int8", "int16"]} for i in range(ntask)]
+    box = {"tasks": tasks}
+
+    def work():
+        try:
+            box["res"] = pool.map_tasks("impl.c14_wide", tasks, mode="jit", nproc=min(env.NCPU, 8))
+        except Exception as e:      # reported by the main thread
+            box["exc"] = e
+
+    th = threading.Thread(target=work)
+    th.start()
+    box["thread"] = th
+    return box
+
+
+def wide_part(ck, box):
+    box["thread"].join()
+    if "exc" in box:
+        ck.machinery_failure("wide traces: %s" % box["exc"])
+    events = []
+    for t, rr in zip(box["tasks"], box["res"]):
+        if not rr["ok"]:
+            # an exception / crash of the summary methods on a valid trace is a verdict about the tree under test
+            ck.violation("impl-error", {"task": t, "error": rr["error"], "tb": rr.get("tb", "")[-1500:]},
+                         key={"site": "wide-trace"})
+            continue
+        events.extend(rr["result"])
+    if not events:
+        if ck.violations:
+            return
+        ck.machinery_failure("no wide trace events recorded")
+    tf = os.path.join(ck.wd, "trace-wide.json")
+    with open(tf, "w") as fh:
+        json.dump(events, fh)
+    try:
+        t = tlc.run(SPEC, "TraceWideSummary", "TraceWide.cfg", workers=1, extra_env={"TRACE_FILE": tf}, timeout=1500)
+    except tlc.TLCError as e:
+        ck.machinery_failure(str(e))
+    ck.add_tlc(t, "TraceWideSummary")
+    consumed = [p for p in t.printed if "consumed" in p]
+    if not consumed or consumed[0]["consumed"] != len(events):
+        ck.machinery_failure("wide trace not fully consumed: %s of %d" % (consumed, len(events)))
+    for p in t.printed:
+        if "reject" in p:
+            e = events[p["reject"] - 1]
+            ck.violation("trace-reject", {"line": p["reject"], "clause": p["clause"], "event": e},
+                         key={"site": e["program"], "clause": p["clause"]})
+    ck.traces += len(events)
+    ck.evaluations += len(events)
+    ck.nontrivial += sum(1 for e in events if e["distinct"] > 1)
+    stat = {}
+    for e in events:
+        d = stat.setdefault(e["program"], {"events": 0, "with_colliding_indices": 0, "index_beyond_dtype": 0, "g_array": 0,
+                                           "chains>=3": 0, "max_alleles": 0})
+        d["events"] += 1
+        d["with_colliding_indices"] += 1 if e["colliding"] else 0
+        d["index_beyond_dtype"] += 1 if e["beyond"] else 0
+        d["g_array"] += e["rank"]
+        d["chains>=3"] += 1 if e["c"] >= 3 else 0
+        d["max_alleles"] = max(d["max_alleles"], e["k"])
+    ck.note("wide_trace_events", stat)
+    for prog in ("wide:int16:pedigree", "wide:int32:calling", "wide:int8:calling"):
+        if stat.get(prog, {}).get("with_colliding_indices", 0) == 0:
+            ck.machinery_failure("wide traces: regime not reached for %s: %s" % (prog, stat.get(prog)))
+    ck.sample({"kind": "recorded-wide-event", "event": {k: v for k, v in events[0].items() if k != "tr"}})
+    # binding demonstration: two retained genotypes merged into one / a probability placed 2^16 cells away
+    bad, want = [], []
+    for e in events:
+        if not bad and len(e["out"]["post"]) > 2:
+            x = json.loads(json.dumps(e))
+            a = x["out"]["post"].pop()
+            x["out"]["post"][-1][1] += a[1]
+            bad.append(x)
+            want.append("WidePostIsEmpirical")
+        if len(bad) == 1 and e["rank"] == 1 and e["out"]["arrLen"] > 70000:
+            x = json.loads(json.dumps(e))
+            cell = x["out"]["arr"][-1]
+            cell[0] = cell[0] - 65536 if cell[0] >= 65536 else cell[0] + 65536
+            bad.append(x)
+            want.append("WideGpIsArray")
+            break
+    tfb = os.path.join(ck.wd, "trace-wide-corrupt.json")
+    with open(tfb, "w") as fh:
+        json.dump(bad, fh)
+    t = tlc.run(SPEC, "TraceWideSummary", "TraceWide.cfg", workers=1, extra_env={"TRACE_FILE": tfb})
+    rej = [p for p in t.printed if "reject" in p]
+    if len(bad) < 2 or [p["clause"] for p in sorted(rej, key=lambda p: p["reject"])] != want:
+        ck.machinery_failure("corrupted wide trace lines not rejected as expected: %s, wanted %s" % (rej, want))
+    ck.note("corrupted_wide_traces_rejected", len(rej))
 
 
 def trace_part(ck):
